@@ -1,7 +1,7 @@
 #!/usr/bin/env python3
 """Writes /verif/MANIFEST.json from the table below.  A property is *claimed* iff its Props/Audit files exist; all
 others are listed under not_applicable with the reason (not built yet — never a claim that the technique cannot apply)."""
-import json, os, subprocess
+import json, os, subprocess, sys
 
 ROOT = os.path.abspath(os.path.join(os.path.dirname(os.path.abspath(__file__)), ".."))
 
@@ -66,21 +66,31 @@ TEXT = {
 # what the per-run translator (tools/rs2lean.py, ser_shape.py) regenerates from /repo/src for each property, with a proven
 # equation `generated = model` (or an `rfl` / `decide` obligation) among the property's obligations
 TRANSLATED = {
- "C01": "RankSupport::rank{,_unchecked}, SelectSupport::select_unchecked (scan loop included), BitVector::{len, count_ones, get, rank, select, select_zero, select_iter, select_zero_iter, predecessor, successor, one_iter, zero_iter, iter}",
- "C02": "SparseVector::{split, combine, pos, lower_bound, upper_bound, select, get, rank, predecessor, successor, count_zeros} (bucket scans included), SparseBuilder::get_buckets",
- "C03": "SampleIndex::{div_round_up, parameters, range}, RLVector::{blocks, ones_after, decode, block_for, iter_for_block, run_iter} (decode loop and binary search included)",
+ "C01": "RankSupport::rank{,_unchecked}, SelectSupport::select_unchecked (scan loop included), BitVector::{len, count_ones, get, rank, select, select_zero, select_iter, select_zero_iter, predecessor, successor, one_iter, zero_iter, iter}, RankSupport::new (both nested loops)",
+ "C02": "SparseVector::{split, combine, pos, lower_bound, upper_bound, select, get, rank, predecessor, successor, count_zeros} (bucket scans included), find_zero_run (binary search + scan), select_zero, SparseBuilder::get_buckets",
+ "C03": "SampleIndex::{div_round_up, parameters, range}, RLVector::{blocks, ones_after, decode, block_for, iter_for_block, run_iter} (decode loop and binary search included), SampleIndex::new, RunIter::{advance_if (arbitrary closure), next, rank_zero, offset_for, rank_at}, RLVector::{iter_for_bit, iter_for_one, iter_for_zero, get, rank, select, select_iter, zero_iter, select_zero, select_zero_iter, successor, iter, one_iter, count_zeros} (all loops included)",
  "C04": "WMCore::{bit_value, map_down_one, map_down_zero, map_up_one, map_up_zero, map_down, map_down_with, map_down_with_two_positions, map_up_with} (level loops included), WaveletMatrix::{start, contains, rank, select, inverse_select, get}, ValueIter::next, the default VectorIndex::{predecessor, successor}",
  "C05": "RawVector::{bit, int, word, word_unchecked, set_unused_bits, set_bit, set_int, push_bit, push_int, pop_bit, pop_int, resize, count_ones}, IntVector::{new, with_len, get, set, push, pop, clear}",
  "C06": "the field order of serialize_header / serialize_body, the load order and the size_in_elements summands of all 14 `impl Serialize` blocks; the `load` functions of RawVector, IntVector, RankSupport, SelectSupport, BitVector, SparseVector, WaveletMatrix (reader threaded through, every sanity check)",
  "C08": "Identity / Complement ::{bit, word, word_unchecked, count_ones}",
- "C10": "the five methods of ops::AccessIter and of bit_vector::Iter; OneIter<T>::{next, nth, next_back, size_hint} (word scans included)",
+ "C10": "the five methods of ops::AccessIter and of bit_vector::Iter; OneIter<T>::{next, nth, next_back, size_hint} (word scans included); sparse_vector::{OneIter::{next, next_back, size_hint}, ZeroIter::{next_run, next, size_hint}, Iter::{next, next_back, size_hint}} and SparseVector::{one_iter, select_iter, zero_iter, select_zero_iter, iter}; rl_vector::{OneIter, ZeroIter, Iter}::{next, size_hint}",
  "C12": "RawVectorWriter::{push_bit, push_int, close_with_header, close}, IntVectorWriter::{push, close} (flush / write_header named by their model functions)",
  "C13": "RawVectorMapper::{bit, int, word, word_unchecked, count_ones}, IntVectorMapper::get (definitionally the in-memory accessors)",
  "C14": "every statement of every serialize_header / serialize_body (obligation: each is a `?`-joined serialize / write_all)",
  "C16": "RLBuilder::{count_zeros, code_len, flush, set_run_unchecked, set_bit_unchecked, try_set, set_len}, SparseBuilder::{is_full, capacity, universe, next_index, is_multiset, is_empty, set_unchecked, try_set}",
  "C17": "every function of bits.rs except select: low_set, high_set (+ unchecked), bit_len, reverse_low, filler_value, read_int, write_int and the nine rounding / offset helpers",
- "C19": "BitVector::{supports_rank, supports_select, supports_select_zero, supports_pred_succ, enable_rank, enable_select, enable_select_zero, enable_pred_succ}",
+ "C19": "BitVector::{supports_rank, supports_select, supports_select_zero, supports_pred_succ, enable_rank, enable_select, enable_select_zero, enable_pred_succ}; the loaders of BitVector, SparseVector, WaveletMatrix and SparseBuilder::get_buckets at every admissible low width",
 }
+
+
+def n_translated():
+    sys.path.insert(0, os.path.join(ROOT, "tools"))
+    import fn_table
+    return sum(len(g[2]) for g in fn_table.GROUPS) + 9 - len(UNPROVEN)
+
+
+# translated but not (yet) tied to the model by a proven equation: not counted, not named in any obligation
+UNPROVEN = ["gen_IntVector_pack", "gen_SelectSupport_new"]
 
 
 def main():
@@ -98,9 +108,9 @@ def main():
                   "source_commits": hook, "add_only": True},
         "engines": [{"name": "lean-proof+correspondence", "path": "tools/check.py", "serves_properties": claimed,
                      "kind_free_text": "Lean 4 theorems about an executable model (core Lean, kernel-checked, axioms audited) + a translator that on every run "
-                                       "regenerates from /repo/src the tables / constants / atomic-op shape AND, statement by statement, the bodies of 160 functions "
+                                       "regenerates from /repo/src the tables / constants / atomic-op shape AND, statement by statement, the bodies of NFUN functions "
                                        "(loops and loaders included) and the shape of all 14 serializers, each tied to the model by a proven equation + a differential correspondence check "
-                                       "(Rust harness linking the real crate vs compiled Lean driver running the model's executable definitions and an independent spec)"}],
+                                       "(Rust harness linking the real crate vs compiled Lean driver running the model's executable definitions and an independent spec)".replace("NFUN", str(n_translated()))}],
         "checks": [], "not_applicable": [],
         "notes": "see DESIGN.md. Every check run = translate, lake build + #print axioms audit + source hygiene grep, harness build from /repo's working tree "
                  "(hooks on), corpus of minimised past failures, regime-directed correspondence, three-way verdict, evidence.",
